@@ -32,13 +32,13 @@ type Monitor struct {
 	// the current right-hand side root of each bind (by lhs-change id), -1 = nil, absent = never built
 	rhsRoot map[int]int
 	// dead generations: nodes that must never run again (C08)
-	dead map[int]bool
+	dead       map[int]bool
 	deadBefore map[int]bool // dead before the current pass started
 	everNec    map[int]bool // ever became necessary
 	// whether any pass since the last fully successful one failed
 	failedSince bool
-	Rejected    bool        // some operation so far returned a cycle / height-limit rejection
-	Cyclic      bool        // an accepted AddInput made the program cyclic
+	Rejected    bool // some operation so far returned a cycle / height-limit rejection
+	Cyclic      bool // an accepted AddInput made the program cyclic
 	CyclicAt    int
 	deferred    map[int]int // C12: var -> value the mid-pass writes of this pass must leave behind
 	passStart   map[int]int // C12: var values when the pass started
@@ -315,6 +315,9 @@ func (m *Monitor) AfterOp(op Op, s Sample) {
 			}
 			en := incr.ExpertNode(ref.INode)
 			for _, p := range en.Parents() {
+				if pid, ok := e.byPtr[p.Node()]; ok && e.Nodes[pid] != nil && e.Nodes[pid].Kind == "Sentinel" {
+					continue
+				}
 				if en.Height() <= incr.ExpertNode(p).Height() {
 					bad = fmt.Sprintf("n%d at height %d, input at height %d", id, en.Height(), incr.ExpertNode(p).Height())
 				}
@@ -343,18 +346,31 @@ func (m *Monitor) AfterOp(op Op, s Sample) {
 	}
 	// C05: the library's own invariant check plus an independent one
 	if err := incr.ExpertGraph(e.G).CheckInvariants(); err != nil {
-		msg := err.Error()
-		kind := "invariants"
-		for _, k := range []string{"edge asymmetry", "height inversion", "graph counts", "is queued at height", "not necessary", "position", "recompute heap"} {
-			if strings.Contains(msg, k) {
-				kind = "invariants:" + k
-				break
+		// A sentinel is linked as an input of the node it watches and sits at its scope's base
+		// height; the library's checker reports that as a height inversion when the watched node
+		// is itself at that height. A watcher is not a dependency edge in the sense of C05 (the
+		// independent check below ignores it), so those lines are dropped.
+		var kept []string
+		for _, line := range strings.Split(err.Error(), "\n") {
+			if strings.Contains(line, "height inversion") && strings.Contains(line, "parent sentinel[") {
+				continue
 			}
+			kept = append(kept, line)
 		}
-		if len(msg) > 300 {
-			msg = msg[:300]
+		msg := strings.Join(kept, "\n")
+		if msg != "" {
+			kind := "invariants"
+			for _, k := range []string{"edge asymmetry", "height inversion", "graph counts", "is queued at height", "not necessary", "position", "recompute heap"} {
+				if strings.Contains(msg, k) {
+					kind = "invariants:" + k
+					break
+				}
+			}
+			if len(msg) > 300 {
+				msg = msg[:300]
+			}
+			m.add("C05", kind, "CheckInvariants after "+op.String()+": "+msg)
 		}
-		m.add("C05", kind, "CheckInvariants after "+op.String()+": "+msg)
 	}
 	m.structural(op)
 	if e.G.IsStabilizing() {
@@ -362,7 +378,7 @@ func (m *Monitor) AfterOp(op Op, s Sample) {
 	}
 	// C10: registered iff last notification was 'necessary'
 	for id, ref := range e.Nodes {
-		if ref == nil || ref.Recycled {
+		if ref == nil || ref.Recycled || ref.Kind == "Sentinel" {
 			continue
 		}
 		if e.G.Has(ref.INode) != m.live[id] {
@@ -389,7 +405,7 @@ func (m *Monitor) AfterOp(op Op, s Sample) {
 	if !m.failedSince {
 		reach := m.reachable()
 		for id, ref := range e.Nodes {
-			if ref == nil || ref.Recycled {
+			if ref == nil || ref.Recycled || ref.Kind == "Sentinel" {
 				continue
 			}
 			if e.G.Has(ref.INode) != reach[id] {
@@ -398,7 +414,13 @@ func (m *Monitor) AfterOp(op Op, s Sample) {
 				break
 			}
 		}
-		if len(e.Obs) == 0 {
+		watching := 0
+		for _, ref := range e.Nodes {
+			if ref != nil && ref.Kind == "Sentinel" && ref.Watched >= 0 {
+				watching++
+			}
+		}
+		if len(e.Obs) == 0 && watching == 0 {
 			if n := incr.ExpertGraph(e.G).NumNodes(); n != 0 {
 				m.add("C06", "not-drained", fmt.Sprintf("nothing is observed but NumNodes=%d", n))
 			}
@@ -579,9 +601,28 @@ func (m *Monitor) passOracles(op Op, s Sample) {
 			m.add("C01", "stale-value", fmt.Sprintf("observer o%d of n%d reads %d, a from-scratch evaluation gives %d", id, or.Target, got, want))
 		}
 	}
+	// C03 (c): a sentinel that fired in this pass woke the node it watches, if that node is necessary
+	for sid, sref := range e.Nodes {
+		if sref == nil || sref.Kind != "Sentinel" {
+			continue
+		}
+		if sref.Fired && sref.Watched >= 0 && e.Registered(sref.Watched) {
+			w := e.Nodes[sref.Watched]
+			ran := false
+			for _, ev := range s.Raw {
+				if ev.N == sref.Watched && (ev.K == "EvInvoked" || ev.K == "EvCutoff" || ev.K == "EvBindFn") {
+					ran = true
+				}
+			}
+			if !ran && (w.Kind == "Map" || w.Kind == "Map2" || w.Kind == "MapN" || w.Kind == "Cutoff") {
+				m.add("C03", "sentinel-wake-missed", fmt.Sprintf("sentinel s%d fired but the necessary node n%d it watches did not recompute", sid, sref.Watched))
+			}
+		}
+		sref.Fired = false
+	}
 	// C03: nothing owed is left behind by a successful pass
 	for id, ref := range e.Nodes {
-		if ref == nil || ref.Recycled || !e.G.Has(ref.INode) {
+		if ref == nil || ref.Recycled || ref.Kind == "Sentinel" || !e.G.Has(ref.INode) {
 			continue
 		}
 		en := incr.ExpertNode(ref.INode)
@@ -627,13 +668,26 @@ func (m *Monitor) structural(op Op) {
 		return
 	}
 	registered := 0
+	sentinels := 0
 	for id, ref := range e.Nodes {
 		if ref == nil || ref.Recycled {
 			continue
 		}
+		if ref.Kind == "Sentinel" {
+			if ref.Watched >= 0 {
+				sentinels++
+			}
+			continue
+		}
 		en := incr.ExpertNode(ref.INode)
 		if !e.G.Has(ref.INode) {
-			if len(en.Parents()) != 0 || len(en.Children()) != 0 {
+			np := 0
+			for _, p := range en.Parents() {
+				if pid, ok := e.byPtr[p.Node()]; !ok || e.Nodes[pid] == nil || e.Nodes[pid].Kind != "Sentinel" {
+					np++
+				}
+			}
+			if np != 0 || len(en.Children()) != 0 {
 				m.add("C06", "edges-on-unregistered", fmt.Sprintf("n%d is not registered but has %d input and %d dependent edges after %s",
 					id, len(en.Parents()), len(en.Children()), op.String()))
 				return
@@ -643,6 +697,9 @@ func (m *Monitor) structural(op Op) {
 		registered++
 		for _, p := range en.Parents() {
 			pe := incr.ExpertNode(p)
+			if pid, ok := e.byPtr[p.Node()]; ok && e.Nodes[pid] != nil && e.Nodes[pid].Kind == "Sentinel" {
+				continue // a sentinel is linked as an input of the node it watches; not a dependency edge
+			}
 			if count(en.Parents(), p.Node()) != count(pe.Children(), ref.INode.Node()) {
 				m.add("C05", "edge-asymmetry", fmt.Sprintf("edge n%d -> input %v recorded with different multiplicity on its endpoints after %s", id, p, op.String()))
 				return
@@ -657,14 +714,17 @@ func (m *Monitor) structural(op Op) {
 			return
 		}
 	}
-	if int(eg.NumNodes()) != registered+len(e.Obs) {
-		m.add("C05", "node-count", fmt.Sprintf("NumNodes=%d but %d nodes and %d observers are registered after %s", eg.NumNodes(), registered, len(e.Obs), op.String()))
+	if int(eg.NumNodes()) != registered+len(e.Obs)+sentinels {
+		m.add("C05", "node-count", fmt.Sprintf("NumNodes=%d but %d nodes, %d observers and %d sentinels are registered after %s", eg.NumNodes(), registered, len(e.Obs), sentinels, op.String()))
 	}
 	if eg.RecomputeHeapLen() != len(eg.RecomputeHeapIDs()) {
 		m.add("C05", "heap-count", fmt.Sprintf("RecomputeHeapLen=%d but %d nodes are queued", eg.RecomputeHeapLen(), len(eg.RecomputeHeapIDs())))
 	}
 	for _, hid := range eg.RecomputeHeapIDs() {
 		id, ok := e.byIdent[hid]
+		if ok && e.Nodes[id] != nil && e.Nodes[id].Kind == "Sentinel" && e.Nodes[id].Watched >= 0 {
+			continue // a watching sentinel is a root of its own and stays queued
+		}
 		if !ok || !e.Registered(id) {
 			m.add("C05", "queued-unregistered", fmt.Sprintf("a queued node (n%d) is not registered after %s", id, op.String()))
 			return
@@ -675,7 +735,7 @@ func (m *Monitor) structural(op Op) {
 // Valid mirrors Engine.op_ok: the operation only refers to nodes of the right kind.
 func (e *Exec) Valid(op Op) bool {
 	user := func(id int) bool {
-		return id >= 0 && id < len(e.Nodes) && e.Nodes[id] != nil && e.Nodes[id].Kind != "BindLhs" && e.Nodes[id].Kind != "Pair"
+		return id >= 0 && id < len(e.Nodes) && e.Nodes[id] != nil && e.Nodes[id].Kind != "BindLhs" && e.Nodes[id].Kind != "Pair" && e.Nodes[id].Kind != "Sentinel"
 	}
 	kind := func(id int, k string) bool { return user(id) && e.Nodes[id].Kind == k }
 	var tOK func(t *Texp, root bool) bool
@@ -713,6 +773,10 @@ func (e *Exec) Valid(op Op) bool {
 				return false
 			}
 		}
+	case "NewSentinel":
+		return user(op.A)
+	case "FireSentinel", "Unwatch":
+		return op.A >= 0 && op.A < len(e.Nodes) && e.Nodes[op.A] != nil && e.Nodes[op.A].Kind == "Sentinel" && e.Nodes[op.A].Watched >= 0
 	case "PurgeMemo", "ClearMemo":
 		return kind(op.A, "BindMain") && e.Nodes[op.A].Bind.Memo != nil
 	case "NewBind", "NewBindMemo", "NewBind2":
